@@ -326,6 +326,35 @@ pub fn run(r: &mut Rec) {
         let b = digits(&mut rng, m, Pat::Ones);
         one_case(r, &format!("toom ratio {}x{}", n, m), &a, &b, 1);
     }
+    // isolated digits: a handful of small non-zero digits scattered over an otherwise zero operand (always digit 0 and the top
+    // digit).  At every Karatsuba level the halves then have zero digits on top (the half-difference routine has to trim
+    // both sides, to different lengths) and non-zero digits below them; dense, all-ones and power-of-two operands never do
+    {
+        let isizes: Vec<usize> = if r.thorough { vec![33, 34, 35, 40, 48, 64, 65, 66, 67, 68, 96, 129, 130, 131, 140, 260, 300] } else { vec![33, 34, 48, 65, 66, 67, 96, 130] };
+        let iso = |rng: &mut Rng, n: usize| -> Vec<u64> {
+            let mut v = vec![0u64; n];
+            v[0] = 1 + rng.below(9);
+            v[n - 1] = 1 + rng.below(9);
+            let k = 1 + rng.below(4) as usize;
+            for _ in 0..k {
+                let pos = rng.below(n as u64) as usize;
+                v[pos] = if rng.chance(1, 4) { u64::MAX } else { 1 + rng.below(9) };
+            }
+            v
+        };
+        for &n in &isizes {
+            let reps = if r.thorough { 16 } else { 6 };
+            for rep in 0..reps {
+                let a = iso(&mut rng, n);
+                let m = if rep % 3 == 2 { n + rng.below(4) as usize } else { n };
+                let b = iso(&mut rng, m);
+                one_case(r, &format!("isolated {}x{} rep {}", n, m, rep), &a, &b, 1);
+                if rep % 3 == 0 {
+                    square_case(r, &format!("isolated {} squared rep {}", n, rep), &a);
+                }
+            }
+        }
+    }
     // zero digits inside / at the low end of both operands (strip path, zero rows)
     for &n in &[33usize, 40, 70, 130] {
         if !r.thorough && n > 70 {
